@@ -51,10 +51,11 @@ const maxOps = 6
 
 // Finding keys of the two defects known on the pinned tree plus the one found by this check.
 const (
-	keyNonExecRefused  = "C20:dir-install:nonexec-candidate-refused"           // F9
-	keyNestedCopied    = "C20:dir-install:nested-files-copied"                 // F10
-	keySameNamedSubdir = "C20:dir-install:same-named-subdir-candidate-counted" // sub-directory named like the source is searched for candidates
-	keyUnexpectedRefus = "C20:install:unexpected-refusal"                      // anything else that should have installed
+	keyNonExecRefused  = "C20:dir-install:nonexec-candidate-refused"            // F9
+	keyNestedCopied    = "C20:dir-install:nested-files-copied"                  // F10
+	keySameNamedSubdir = "C20:dir-install:same-named-subdir-candidate-counted"  // sub-directory named like the source is searched for candidates
+	keyNonExecAlone    = "C20:dir-install:nonexec-candidate-unfollowed-refused" // sole non-executable candidate refused although no file follows it
+	keyUnexpectedRefus = "C20:install:unexpected-refusal"                       // anything else that should have installed
 )
 
 // Op is one operation of a sequence (also the replay/evidence format).
@@ -216,6 +217,35 @@ func decide(s Src, b *Built, model map[string]*installed, overwrite bool) verdic
 	return v
 }
 
+// followedByFile: input class of finding F9 — a directory whose sole, non-executable candidate
+// is followed (in name order, the sub-directory named like the source included) by another
+// regular file. Used only to choose the finding key.
+func followedByFile(s Src) bool {
+	for _, e := range s.Extras {
+		if e > "notation-"+s.Name {
+			return true
+		}
+	}
+	for _, sd := range s.Subdirs {
+		if sd.Name != srcDirName || sd.Name < "notation-"+s.Name {
+			continue
+		}
+		for _, f := range sd.Files {
+			if !strings.Contains(f, "/") {
+				return true
+			}
+		}
+	}
+	return false
+}
+
+func nonExecKey(s Src) string {
+	if followedByFile(s) {
+		return keyNonExecRefused
+	}
+	return keyNonExecAlone
+}
+
 func sameNamedSubdirCandidate(s Src) bool {
 	for _, sd := range s.Subdirs {
 		if sd.Name != srcDirName {
@@ -343,11 +373,24 @@ func genDirShape(rt *rapid.T, s *Src, allowSameNamedCandidate bool) {
 	}
 }
 
+// pickName draws alpha or beta; when exactly one of them is installed it is preferred (3:1) so
+// that operations meet existing plugins often enough.
+func (m *machine) pickName(rt *rapid.T) string {
+	a, b := m.model["alpha"] != nil, m.model["beta"] != nil
+	switch {
+	case a && !b:
+		return rp.Pick(rt, "name", "alpha", "beta", "alpha", "alpha")
+	case b && !a:
+		return rp.Pick(rt, "name", "beta", "alpha", "beta", "beta")
+	}
+	return rp.Pick(rt, "name", "alpha", "beta")
+}
+
 func (m *machine) genSrc(rt *rapid.T) Src {
-	s := Src{Name: rp.Pick(rt, "name", "alpha", "beta"), Marker: fmt.Sprintf("m%d", m.nsrc+1)}
-	s.Kind = rp.Pick(rt, "kind", "file", "dir", "file", "dir", "dir", "dir", "file", "dir", "file-nonexec", "file-badname", "missing")
-	s.Meta = rp.Pick(rt, "meta", "ok", "ok", "ok", "ok", "ok", "ok", "ok", "misnamed", "badjson", "missing", "exit1")
-	switch rp.Pick(rt, "vmode", "pool", "pool", "pool", "same", "invalid") {
+	s := Src{Name: m.pickName(rt), Marker: fmt.Sprintf("m%d", m.nsrc+1)}
+	s.Kind = rp.Pick(rt, "kind", "file", "dir", "file", "dir", "dir", "dir", "file", "dir", "file", "dir", "dir", "file-nonexec", "file-badname", "missing")
+	s.Meta = rp.Pick(rt, "meta", "ok", "ok", "ok", "ok", "ok", "ok", "ok", "ok", "ok", "ok", "ok", "ok", "misnamed", "badjson", "missing", "exit1")
+	switch rp.Pick(rt, "vmode", "pool", "pool", "pool", "pool", "same", "invalid") {
 	case "pool":
 		s.Version = validVersions[rapid.IntRange(0, len(validVersions)-1).Draw(rt, "version")].v
 	case "same": // the installed version or one of equal precedence (build metadata differs)
@@ -489,7 +532,7 @@ func (m *machine) checkRefused(rt *rapid.T, src Src, v verdict, before, after []
 		case sameNamedSubdirCandidate(src):
 			key = keySameNamedSubdir
 		case v.soleNonExec:
-			key = keyNonExecRefused
+			key = nonExecKey(src)
 		}
 		m.fail(rt, key, "the model expects this installation to install/replace %q (version relation %s) but it was refused: %v", v.plugin, v.rel, err)
 		// listed finding: the tree is unchanged (checked above), so the model stays as it is
@@ -503,7 +546,7 @@ func (m *machine) checkRefused(rt *rapid.T, src Src, v verdict, before, after []
 			case sameNamedSubdirCandidate(src):
 				return keySameNamedSubdir
 			case v.soleNonExec:
-				return keyNonExecRefused
+				return nonExecKey(src)
 			}
 			return k
 		}
@@ -642,7 +685,7 @@ func (m *machine) uninstall(rt *rapid.T) {
 	if m.done() {
 		return
 	}
-	name := rp.Pick(rt, "name", "alpha", "beta")
+	name := m.pickName(rt)
 	m.c.Ops = append(m.c.Ops, Op{Kind: "uninstall", Name: name})
 	op := &m.c.Ops[len(m.c.Ops)-1]
 	m.cls("op=uninstall")
@@ -692,7 +735,7 @@ func (m *machine) get(rt *rapid.T) {
 	if m.done() {
 		return
 	}
-	name := rp.Pick(rt, "name", "alpha", "beta")
+	name := m.pickName(rt)
 	m.c.Ops = append(m.c.Ops, Op{Kind: "get", Name: name})
 	m.cls("op=get")
 	if inst := m.model[name]; inst != nil {
